@@ -3,7 +3,7 @@ META = dict(
     level="other",
     claim="Hide-set mechanics behind termination of macro expansion, on the real preprocess.c: union/intersection/membership are the set operations (exact-name membership) for all hide sets of up to 2 names over a 3-name pool; expand_macro never expands a name that is in the invoking token's hide set, and otherwise every token of an object-like expansion carries the macro's name plus the invoker's hide set, the invocation as origin, and the invocation's line-start/white-space flags; a function-like macro name without '(' is left alone.",
     note="Bounded (hide sets of at most 2 names; one two-token replacement list). Stand-in stub: find_macro. Also: subst() on three replacement lists with ## and every empty/non-empty argument combination concatenates exactly the non-empty operands, lets placemarkers vanish, never pastes a neighbouring token and diagnoses none of them (paste is a stand-in stub). Not covered: parameter pre-expansion, #, ,##__VA_ARGS__, __VA_OPT__, argument collection, function-like application, rescanning order; termination itself is the usual finite-measure argument over these two lemmas and is not machine-checked.",
-    functions=["preprocess.c:subst", "preprocess.c:find_arg", "preprocess.c:hideset_union", "preprocess.c:hideset_intersection", "preprocess.c:hideset_contains", "preprocess.c:new_hideset", "preprocess.c:add_hideset", "preprocess.c:expand_macro", "preprocess.c:append", "preprocess.c:copy_token"],
+    functions=["preprocess.c:read_macro_arg_one", "preprocess.c:join_tokens", "preprocess.c:subst", "preprocess.c:find_arg", "preprocess.c:hideset_union", "preprocess.c:hideset_intersection", "preprocess.c:hideset_contains", "preprocess.c:new_hideset", "preprocess.c:add_hideset", "preprocess.c:expand_macro", "preprocess.c:append", "preprocess.c:copy_token"],
     trusted_base=["CBMC 6.11"],
     assumptions=["find_macro stand-in stub", "ghost equal()"],
     explanation="bounded harnesses on the hide-set functions and the object-like arm of expand_macro",
@@ -13,6 +13,9 @@ def jobs(tier):
     P = dict(mode="plain", cut=CUT, units=[], timeout=600, replay=None, unwind=12)
     return [Job(name="hideset-algebra", src="hideset.c", group="C09.1 hide sets", defs={"FN": "0"}, bounded="hide sets of <= 2 names over a pool of 3", sample="union/intersection/contains on every pair of hide sets", **P),
             Job(name="expand-objlike", src="hideset.c", group="C09.2 application discipline", defs={"FN": "1"}, redirect={"find_macro": "stub_find_macro"}, bounded="one object-like macro, 2-token body", sample="expand_macro on an object-like macro with a symbolic hide set", **P),
-            *[Job(name=f"paste-placemarkers-{sc}", src="subst.c", group="C09.3 ## and placemarkers", defs={"SCEN": str(sc)}, redirect={"paste": "stub_paste"}, cbmc_flags=["--paths lifo"],
-                  bounded="three replacement lists, arguments empty or one token", sample=["x ## y ## z", "w x ## y ## z", "x ## y q"][sc] + " with every empty/non-empty argument combination", **dict(P, cut=["error", "error_at", "verror_at", "warn_tok"], unwind=16)) for sc in range(3)],
+            *[Job(name=f"paste-placemarkers-{sc}", src="subst.c", group="C09.3 ## and placemarkers", defs={"SCEN": str(sc)}, redirect={"paste": "stub_paste", "preprocess2": "stub_preprocess2"}, cbmc_flags=["--paths lifo"],
+                  bounded="three replacement lists, arguments empty or one token", sample=["x ## y ## z", "w x ## y ## z", "x ## y q", "x q y"][sc] + " with every empty/non-empty argument combination", **dict(P, cut=["error", "error_at", "verror_at", "warn_tok"], unwind=16)) for sc in range(4)],
+            *[Job(name=f"macro-arg-k{k}", src="args.c", group="C09.5 argument collection", defs={"NA": "4", "K0": str(k)}, cbmc_flags=["--paths lifo"],
+                  bounded="token sequences of length <= 4 over ( ) , { } x", sample="read_macro_arg_one on every sequence of up to 4 tokens", **dict(P, unwind=10)) for k in range(6)],
+            Job(name="stringize-spacing", src="stringize.c", group="C09.4 # operator", bounded="three-token argument", sample="join_tokens on a three-token argument with symbolic white-space flags", **dict(P, unwind=10)),
             Job(name="expand-funclike-noparen", src="hideset.c", group="C09.2 application discipline", defs={"FN": "2"}, redirect={"find_macro": "stub_find_macro"}, bounded="one function-like macro", sample="function-like macro name not followed by '('", **P)]
